@@ -432,6 +432,8 @@ def classify(case, out, spec, pos):
 
 
 WHAT = {
+    "stop:start-not-completed-by-stop": "stop() called while no session had joined (connect in flight or retry delay "
+                                        "running): the future returned by start() never completes",
     "polarity:main-raised-not-error": "main() raised but start()'s future is not failed: the error goes to the reconnect "
                                       "logic and main is run again on the next connection",
     "giveup:no-main:budget-not-reset-after-join": "component without main: a successful join does not reset the retry "
@@ -506,6 +508,18 @@ def run(ctx):
                 best[key] = (size, c, o, {"spec": spec, "position": pos, "verdict_bits": dict(zip(BITS, v["V"]))})
         if len(o["done"]) > 1 and "done:twice" not in best:
             best["done:twice"] = (0, c, o, {"spec": "doneOnce"})
+        # stop() while no session has ever joined (connect in flight / waiting for the retry delay): the result of
+        # start() completes with that call (model: onStop / stop_ends_loop); the Lean Spec has no clause for it because
+        # a joined session completes later, with its GOODBYE - this is the unambiguous part, judged on the log alone
+        lg = o["log"]
+        if "X" in lg:
+            ix = lg.index("X")
+            if (any(t.startswith("a") for t in lg[:ix]) and not any(t.startswith("j") for t in lg[:ix])
+                    and not any(t.startswith("d") for t in lg) and not o["done"]):
+                key = "stop:start-not-completed-by-stop"
+                size = len(c["events"]) * 10 + len(c["transports"])
+                if key not in best or size < best[key][0]:
+                    best[key] = (size, c, o, {"spec": "stopCompletes", "position": str(ix)})
         # correspondence: Model vs implementation
         diffs = compare(c, o, m)
         if diffs:
